@@ -964,6 +964,19 @@ impl HelperAttributeForCompareOp {
             parse_single::<TemplateOf<ArgsForCompareOp>>(attrs, op.to_str_snake_case())?
         {
             let args = args.0;
+            if let Some(by) = &args.by {
+                // `$` stands for the field in `key = ...` only
+                fn mentions_placeholder(ts: TokenStream) -> bool {
+                    ts.into_iter().any(|t| match t {
+                        TokenTree::Ident(i) => i == placeholder(),
+                        TokenTree::Group(g) => mentions_placeholder(g.stream()),
+                        _ => false,
+                    })
+                }
+                if mentions_placeholder(by.value.to_token_stream()) {
+                    bail!(by.value.span(), "`$` cannot be used in `by = ...`");
+                }
+            }
             Ok(Self {
                 ignore: args.ignore,
                 reverse: args.reverse,
@@ -1070,9 +1083,15 @@ struct TemplateOf<T>(T);
 
 impl<T: Parse> Parse for TemplateOf<T> {
     fn parse(input: syn::parse::ParseStream) -> Result<Self> {
-        Ok(Self(parse2::<T>(dollar_token_to_placeholder(
-            input.parse()?,
-        ))?))
+        let ts: TokenStream = input.parse()?;
+        // `$` is replaced by an expression later: it has to stand where a parenthesized expression can
+        // (`len.$()` or `S { $ }` would only fail after the replacement, inside the generated code).
+        parse2::<T>(replace_tokens(
+            ts.clone(),
+            &|t| matches!(t, TokenTree::Punct(p) if p.as_char() == '$'),
+            &quote!((__placeholder)),
+        ))?;
+        Ok(Self(parse2::<T>(dollar_token_to_placeholder(ts))?))
     }
 }
 
